@@ -5,7 +5,7 @@ package main
 import (
 	"context"
 	"fmt"
-	"math/rand"
+	"math/bits"
 	"os"
 	"os/exec"
 	"runtime"
@@ -14,30 +14,18 @@ import (
 
 	"go.lstv.dev/util/uu"
 	sched "go.lstv.dev/util/verifsync"
+	vrand "go.lstv.dev/util/verifsync/rand"
 	"verif/mc"
 )
 
-// ------------------------------------------------------------ scripted, yielding random source
-type scripted struct {
-	counter    int
-	inside     int
-	concurrent bool // two threads were inside the generator at once
-	values     func(i int) int64
-	draws      []int // counter value each draw observed
-}
-
-func (s *scripted) Seed(int64) {}
-func (s *scripted) Int63() int64 {
-	s.inside++
-	if s.inside > 1 {
-		s.concurrent = true
-	}
-	c := s.counter
-	sched.Yield() // the generator's read-modify-write is not atomic: a scheduling point sits between read and write
-	s.counter = c + 1
-	s.inside--
-	s.draws = append(s.draws, c)
-	return s.values(c)
+// ------------------------------------------------------------ scripted generators (see overlay/verifsync/rand)
+// Every generator the code under test builds through math/rand, math/rand/v2 or crypto/rand is a scripted one whose values
+// the harness chooses; installScript starts a fresh execution: all package-level state of uu is re-initialised.
+func installScript(values func(src *vrand.Scripted, i int) int64) {
+	vrand.Reset()
+	vrand.Real = false
+	vrand.Values = values
+	uu.VerifReset()
 }
 
 // distinct 63-bit values per draw index, with bits spread over the whole word
@@ -97,8 +85,11 @@ func execute(h harness, ch sched.Chooser, procs int) execResult {
 	if procs > 0 { // GOMAXPROCS is a configuration the code under test can observe
 		defer runtime.GOMAXPROCS(runtime.GOMAXPROCS(procs))
 	}
-	src := &scripted{values: spread}
-	uu.VerifReset(src)
+	// distinct values per (generator, draw); the seed the code passes (usually the clock) is deliberately not used:
+	// an execution must be a function of the schedule alone
+	installScript(func(src *vrand.Scripted, i int) int64 {
+		return spread(i) ^ int64(uint64(src.Index)*0x2545F4914F6CDD1D>>1)
+	})
 	ids := make([][]uu.ID, h.threads)
 	bodies := make([]func(), h.threads)
 	for t := 0; t < h.threads; t++ {
@@ -111,7 +102,15 @@ func execute(h harness, ch sched.Chooser, procs int) execResult {
 	}
 	s := sched.Run(ch, bodies...)
 	res := execResult{schedule: s.Switches, points: s.Points}
-	total := h.threads * h.calls
+	concurrent, lost := "", ""
+	for _, src := range vrand.Sources {
+		if src.Concurrent && concurrent == "" {
+			concurrent = fmt.Sprintf("generator #%d (created with seed %d)", src.Index, src.SeedGiven)
+		}
+		if src.Counter != src.Draws && lost == "" {
+			lost = fmt.Sprintf("generator #%d handed out %d values but its state advanced only %d times", src.Index, src.Draws, src.Counter)
+		}
+	}
 	switch {
 	case len(s.Panics) > 0:
 		res.outcome, res.detail = "panic_in_thread", strings.Join(s.Panics, "; ")
@@ -119,10 +118,10 @@ func execute(h harness, ch sched.Chooser, procs int) execResult {
 		res.outcome, res.detail = "deadlock", strings.Join(s.Blocked, "; ")
 	case s.Livelock:
 		res.outcome, res.detail = "livelock", "only threads that keep re-reading an unchanged atomic location were left, 64 times in a row"
-	case src.concurrent:
-		res.outcome, res.detail = "two_goroutines_inside_generator", "the shared generator was entered by a second goroutine while another one was inside it (a data race on the real generator)"
-	case src.counter != 2*total:
-		res.outcome, res.detail = "lost_generator_update", fmt.Sprintf("%d draws were made but the generator advanced only to %d", 2*total, src.counter)
+	case concurrent != "":
+		res.outcome, res.detail = "two_goroutines_inside_generator", concurrent+" was entered by a second goroutine while another one was inside it (a data race on the real generator)"
+	case lost != "":
+		res.outcome, res.detail = "lost_generator_update", lost
 	}
 	seen := map[uu.ID]string{}
 	var obs []string
@@ -173,29 +172,19 @@ type bitsArg struct {
 	B uint64 `json:"draw_b"`
 }
 
+// idFor: the ID generated when every generator answers a, b, a, b, ...
 func idFor(a, b uint64) uu.ID {
 	vals := []int64{int64(a), int64(b)}
-	uu.VerifReset(&scripted{values: func(i int) int64 { return vals[i%2] }})
+	installScript(func(_ *vrand.Scripted, i int) int64 { return vals[i%2] })
 	return uu.RandomID()
 }
 
-// layout learnt from single-bit draws: for each of the 126 draw bits, which output bit it feeds (-1 none)
-var layout [126]int
-var layoutErr string
-
-func learnLayout() {
+// Informational only (evidence): is the ID a plain bit copy of two 63-bit draws? The statement does not ask for that, so a
+// tree that mixes its draws differently is judged on version, variant and "every other bit takes both values" alone.
+func describeLayout() string {
 	base := idFor(0, 0)
-	out := func(id uu.ID) [128]bool {
-		var o [128]bool
-		for i := 0; i < 64; i++ {
-			o[i] = id.Lower>>uint(i)&1 == 1
-			o[64+i] = id.Higher>>uint(i)&1 == 1
-		}
-		return o
-	}
-	bo := out(base)
-	used := map[int]int{}
-	n := 0
+	fed := map[int]int{}
+	multi := false
 	for i := 0; i < 126; i++ {
 		var a, b uint64
 		if i < 63 {
@@ -203,62 +192,48 @@ func learnLayout() {
 		} else {
 			b = 1 << uint(i-63)
 		}
-		o := out(idFor(a, b))
-		layout[i] = -1
-		for k := 0; k < 128; k++ {
-			if o[k] != bo[k] {
-				if layout[i] != -1 {
-					layoutErr = fmt.Sprintf("draw bit %d changes more than one output bit", i)
-				}
-				layout[i] = k
-			}
+		id := idFor(a, b)
+		d := bits.OnesCount64(id.Lower^base.Lower) + bits.OnesCount64(id.Higher^base.Higher)
+		if d > 1 {
+			multi = true
 		}
-		if layout[i] >= 0 {
-			if prev, dup := used[layout[i]]; dup {
-				layoutErr = fmt.Sprintf("draw bits %d and %d feed the same output bit %d", prev, i, layout[i])
-			}
-			used[layout[i]] = i
-			n++
+		if d > 0 {
+			fed[i] = d
 		}
 	}
-	if n != 122 && layoutErr == "" {
-		layoutErr = fmt.Sprintf("%d of the 126 draw bits reach the ID, expected 122 (128 minus 4 version and 2 variant bits)", n)
-	}
-	for _, k := range []int{64 + 12, 64 + 13, 64 + 14, 64 + 15, 62, 63} {
-		if _, hit := used[k]; hit && layoutErr == "" {
-			layoutErr = fmt.Sprintf("a random bit leaks into version/variant field bit %d", k)
-		}
-	}
+	return fmt.Sprintf("%d of the 126 bits of two 63-bit draws reach the ID; a draw bit feeding more than one ID bit: %v", len(fed), multi)
 }
 
 func probeBits(p bitsArg) (string, string) {
-	if layoutErr != "" {
-		return "bit_layout", layoutErr
-	}
 	id := idFor(p.A, p.B)
 	if id.Version() != 4 || id.Variant() != 1 {
 		return "bad_version_or_variant", fmt.Sprintf("draws %#x,%#x give %s (version %d, variant %d)", p.A, p.B, id, id.Version(), id.Variant())
 	}
-	// predicted: base with every set draw bit copied to its output bit
-	base := idFor(0, 0)
-	want := base
-	for i := 0; i < 126; i++ {
-		var set bool
-		if i < 63 {
-			set = p.A>>uint(i)&1 == 1
-		} else {
-			set = p.B>>uint(i-63)&1 == 1
-		}
-		if set && layout[i] >= 0 {
-			if layout[i] < 64 {
-				want.Lower |= 1 << uint(layout[i])
-			} else {
-				want.Higher |= 1 << uint(layout[i]-64)
-			}
+	return "", ""
+}
+
+// probeStuck: over the whole grid of draw pairs every one of the 122 non-fixed bits must take both values.
+type stuckArg struct {
+	Draws []uint64 `json:"draw_values"`
+}
+
+const fixedHi, fixedLo = uint64(0xf000), uint64(0xc000000000000000)
+
+func probeStuck(p stuckArg) (string, string) {
+	var or, and uu.ID
+	and = uu.ID{Higher: ^uint64(0), Lower: ^uint64(0)}
+	for _, a := range p.Draws {
+		for _, b := range p.Draws {
+			id := idFor(a, b)
+			or.Higher |= id.Higher
+			or.Lower |= id.Lower
+			and.Higher &= id.Higher
+			and.Lower &= id.Lower
 		}
 	}
-	if id != want {
-		return "bits_not_independent_copies", fmt.Sprintf("draws %#x,%#x give %s; bit-copy layout predicts %s", p.A, p.B, id, want)
+	if or.Higher|fixedHi != ^uint64(0) || or.Lower|fixedLo != ^uint64(0) || and.Higher&^fixedHi != 0 || and.Lower&^fixedLo != 0 {
+		return "stuck_bit", fmt.Sprintf("over all %d^2 pairs of scripted draws some of the 122 random bits never changed: never 1: %016x %016x, never 0: %016x %016x (higher, lower; version and variant fields masked out)",
+			len(p.Draws), ^or.Higher&^fixedHi, ^or.Lower&^fixedLo, and.Higher&^fixedHi, and.Lower&^fixedLo)
 	}
 	return "", ""
 }
@@ -269,7 +244,10 @@ type seedArg struct {
 }
 
 func probeSeed(a seedArg) (string, string) {
-	uu.VerifReset(rand.NewSource(a.Seed))
+	vrand.Reset()
+	vrand.Real, vrand.RealSeed = true, a.Seed
+	defer func() { vrand.Real = false }()
+	uu.VerifReset()
 	seen := map[uu.ID]bool{}
 	var or, and uu.ID
 	and = uu.ID{Higher: ^uint64(0), Lower: ^uint64(0)}
@@ -288,7 +266,6 @@ func probeSeed(a seedArg) (string, string) {
 		and.Lower &= id.Lower
 	}
 	// every non-fixed bit took both values
-	fixedHi, fixedLo := uint64(0xf000), uint64(0xc000000000000000)
 	if or.Higher|fixedHi != ^uint64(0) || or.Lower|fixedLo != ^uint64(0) || and.Higher&^fixedHi != 0 || and.Lower&^fixedLo != 0 {
 		return "stuck_bit", fmt.Sprintf("seed %d: over %d draws some of the 122 random bits never changed (or=%016x%016x and=%016x%016x)", a.Seed, a.N, or.Higher, or.Lower, and.Higher, and.Lower)
 	}
@@ -301,11 +278,13 @@ func main() {
 		r.Workers = 1 // the code under test has process-wide state (one generator, one mutex): executions run one at a time
 		pS := mc.NewProbe(r, "schedule", nil, probeSchedule)
 		pB := mc.NewProbe(r, "bits", nil, probeBits)
+		pK := mc.NewProbe(r, "bits_both_values", nil, probeStuck)
 		pR := mc.NewProbe(r, "real_generator", nil, probeSeed)
-		r.Assume("hooks are injected with `go build -tags verif -overlay` only: uu's \"sync\" import is rewritten to the scheduler shim and uu/verif_hooks.go (VerifReset) replaces the mutex and the generator per execution; /repo is untouched")
+		r.Assume("hooks are injected with `go build -tags verif -overlay` only: uu's sync, sync/atomic, math/rand, math/rand/v2 and crypto/rand imports are redirected to the scheduler and generator shims and uu/verif_hooks.go (VerifReset) re-initialises every package-level variable per execution; nothing depends on unexported names; /repo is untouched")
+		r.Extra["seams_bound_in_this_tree"] = uu.VerifBinding
+		r.Extra["bit_layout"] = describeLayout()
 		r.Assume("the scripted source models math/rand's generator as a non-atomic read-yield-write of its state and flags a second goroutine entering it; memory-model effects below that granularity are outside the scheduler (covered only by the free-running -race supplement in the thorough tier)")
-		r.Assume("the statistical half of the statement (no duplicate from the real clock-seeded generator) is not decidable by this family; decided here: exclusive access, no lost update, injective bit layout")
-		learnLayout()
+		r.Assume("the statistical half of the statement (no duplicate from the real clock-seeded generator) is not decidable by this family; decided here: exclusive access to every generator, no lost generator update, no duplicate under distinct scripted draws, version and variant on every ID, every other bit takes both values over the scripted draw grid")
 
 		type plan struct {
 			h     string
@@ -385,10 +364,14 @@ func main() {
 						pB.Do(w, bitsArg{a, b})
 					}
 				}
+				w.Point()
+				w.NonTrivial()
+				pK.Do(w, stuckArg{draws})
 				w.Outcome("bit layout")
 			})
 		})
 		r.Sample("bits", bitsArg{1 << 14, 1})
+		r.Sample("bits_both_values", stuckArg{[]uint64{0, 1<<63 - 1}})
 		seeds, n := 16, 2048
 		if !r.Quick() {
 			seeds, n = 64, 4096
